@@ -455,3 +455,67 @@ package logqlengine
 //@   capture c = call(i.iter.Err, 0)
 //@   modifies nothing
 //@   ensures[forwards-source-error] c_called && ret0 == c_r0
+
+// ---- C09: what one log line contributes to a range aggregation
+
+//@ scope sampler.go
+
+//@ func (*lineCounterExtractor).Extract
+//@   modifies nothing
+//@   ensures[one-per-line] ret0 == 1 && ret1
+
+//@ func (*bytesCounterExtractor).Extract
+//@   modifies nothing
+//@   ensures[line-length] same(ret0, float64(len(e.line))) && ret1
+
+//@ func convertBytes
+//@   pure
+//@   ensures[value] ret1 == nil ==> same(ret0, float64(first(humanize.ParseBytes(s))))
+//@   ensures[zero-on-error] ret1 != nil ==> same(ret0, float64(0))
+//@   ensures[error] (second(humanize.ParseBytes(s)) != nil) == (ret1 != nil)
+
+//@ func convertDuration
+//@   pure
+//@   ensures[value] ret1 == nil ==> same(ret0, first(time.ParseDuration(s)).Seconds())
+//@   ensures[zero-on-error] ret1 != nil ==> same(ret0, float64(0))
+//@   ensures[error] (second(time.ParseDuration(s)) != nil) == (ret1 != nil)
+
+//@ func (*labelsExtractor).Extract
+//@   assume_pure l.converter
+//@   capture gs = call(e.set.GetString, 0)
+//@   capture cv = call(l.converter, 0)
+//@   capture pf = call(l.postfilter.Process, 0)
+//@   requires e.set.labels != nil
+//@   modifies e.set.labels[*]
+//@   ensures[reads-the-unwrap-label] gs_called && gs_a0 == l.label
+//@   ensures[missing-label-no-sample] !gs_r1 ==> !ret1
+//@   ensures[value-is-converted-label] gs_r1 ==> cv_called && cv_a0 == gs_r0 && same(p, cv_r0)
+//@   ensures[kept-iff-postfilter-keeps] gs_r1 ==> pf_called && ret1 == pf_r1 && pf_a0 == e.ts && pf_a1 == e.line && same(pf_a2, e.set)
+
+//@ func buildSampleExtractor
+//@   logical s string
+//@   loop 0 modifies procs[*]
+//@   loop 0 invariant rangeindex+1 <= len(procs) && len(procs) == len(unwrap.Filters) && le != nil
+//@   ensures[count-rate-absent-count-lines] (expr.Op == logql.RangeOpCount || expr.Op == logql.RangeOpRate || expr.Op == logql.RangeOpAbsent) ==> ret1 == nil && typeis[*lineCounterExtractor](ret0)
+//@   ensures[bytes-count-bytes] (expr.Op == logql.RangeOpBytes || expr.Op == logql.RangeOpBytesRate) ==> ret1 == nil && typeis[*bytesCounterExtractor](ret0)
+//@   ensures[others-need-unwrap] (expr.Op == logql.RangeOpAvg || expr.Op == logql.RangeOpSum || expr.Op == logql.RangeOpMin || expr.Op == logql.RangeOpMax || expr.Op == logql.RangeOpStdvar || expr.Op == logql.RangeOpStddev || expr.Op == logql.RangeOpQuantile || expr.Op == logql.RangeOpFirst || expr.Op == logql.RangeOpLast || expr.Op == logql.RangeOpRateCounter) && old(expr.Range.Unwrap) == nil ==> ret1 != nil
+//@   ensures[unwrap-label] ret1 == nil && typeis[*labelsExtractor](ret0) ==> as[*labelsExtractor](ret0).label == old(expr.Range.Unwrap.Label)
+//@   ensures[plain-unwrap-parses-float] ret1 == nil && typeis[*labelsExtractor](ret0) && old(expr.Range.Unwrap.Op) == "" ==> same(first(as[*labelsExtractor](ret0).converter(s)), first(strconv.ParseFloat(s, 64)))
+//@   ensures[bytes-unwrap] ret1 == nil && typeis[*labelsExtractor](ret0) && old(expr.Range.Unwrap.Op) == "bytes" ==> same(first(as[*labelsExtractor](ret0).converter(s)), first(convertBytes(s)))
+//@   ensures[duration-unwrap] ret1 == nil && typeis[*labelsExtractor](ret0) && (old(expr.Range.Unwrap.Op) == "duration" || old(expr.Range.Unwrap.Op) == "duration_seconds") ==> same(first(as[*labelsExtractor](ret0).converter(s)), first(convertDuration(s)))
+//@   ensures[unknown-conversion-rejected] old(expr.Range.Unwrap) != nil && !(old(expr.Range.Unwrap.Op) == "" || old(expr.Range.Unwrap.Op) == "bytes" || old(expr.Range.Unwrap.Op) == "duration" || old(expr.Range.Unwrap.Op) == "duration_seconds") && typeis[*labelsExtractor](ret0) ==> ret1 != nil
+
+//@ iface sampleExtractor.Extract
+//@   modifies e.set.labels[*]
+
+//@ func (*sampleIterator).Next
+//@   capture nx = call(i.iter.Next, 0)
+//@   capture ex = call(i.sampler.Extract, 0)
+//@   capture al = call(newAggregatedLabels, 0)
+//@   modifies *
+//@   loop 0 modifies *
+//@   ensures[sample-iff-extracted] ret0 ==> nx_called && nx_r0 && ex_called && ex_r1
+//@   ensures[timestamp-and-value] ret0 ==> s.Timestamp == e.ts && same(s.Sample, ex_r0) && same(ex_a0, e)
+//@   ensures[labels-of-the-record] ret0 ==> al_called && same(al_a0, e.set) && same(al_a1, i.by) && same(al_a2, i.without) && s.Set == logqlmetric.AggregatedLabels(al_r0)
+//@   ensures[ends-only-with-source] !ret0 ==> nx_called && !nx_r0
+//@   loop 0 body_ensures[skips-only-lines-without-sample] nx_r0 && ex_called && !ex_r1
